@@ -399,11 +399,12 @@ func (c *consumerGroup) consumerExpired(consumerID string) func() {
 		if err := c.memberExpiredHandler(c.id, consumerID); err != nil {
 			c.logger.Errorf("Failed to remove consumer %s from consumer group %s: %v",
 				consumerID, c.id, err.Error())
-			// Reset the timer so we can try again later.
-			timer := c.startMemberTimer(consumerID)
+			// Reset the timer so we can try again later, unless the consumer
+			// has left the group in the meantime.
 			c.mu.Lock()
-			consumer := c.members[consumerID]
-			consumer.timer = timer
+			if consumer, ok := c.members[consumerID]; ok {
+				consumer.timer = c.startMemberTimer(consumerID)
+			}
 			c.mu.Unlock()
 		}
 	}
